@@ -69,6 +69,7 @@ pub fn read_directories(
         root_dir_offset_length,
         leaf_dir_offset,
         &filter_range,
+        &mut Vec::new(),
     )?;
 
     Ok(tiles)
@@ -127,11 +128,15 @@ pub async fn read_directories_async(
         root_dir_offset_length,
         leaf_dir_offset,
         &filter_range,
+        &mut Vec::new(),
     )
     .await?;
 
     Ok(tiles)
 }
+
+/// Maximum number of leaf directory levels below the root directory that are followed.
+const MAX_LEAF_DIRECTORY_DEPTH: usize = 16;
 
 /// Get (inclusive) end of range bounds.
 ///
@@ -157,7 +162,18 @@ async fn fn_name(
     (dir_offset, dir_length): (u64, u64),
     leaf_dir_offset: u64,
     filter_range: &FilterRangeTraits,
+    path: &mut Vec<(u64, u64)>,
 ) -> Result<()> {
+    // `path` holds the directories between the root and this one: a directory that shows up
+    // on its own path is a cycle, and a very long path would exhaust the stack.
+    if path.len() > MAX_LEAF_DIRECTORY_DEPTH || path.contains(&(dir_offset, dir_length)) {
+        return Err(std::io::Error::new(
+            std::io::ErrorKind::InvalidData,
+            "Leaf directories are nested too deeply or refer to themselves.",
+        ));
+    }
+    path.push((dir_offset, dir_length));
+
     seek_start([reader], [dir_offset])?;
     let directory = read_directory([reader], [dir_length], [compression])?;
     let range_end = range_end_inc(filter_range).unwrap_or(u64::MAX);
@@ -183,6 +199,7 @@ async fn fn_name(
                 (leaf_offset, u64::from(entry.length)),
                 leaf_dir_offset,
                 filter_range,
+                path,
             )])?;
             continue;
         }
@@ -201,6 +218,8 @@ async fn fn_name(
             );
         }
     }
+
+    path.pop();
 
     Ok(())
 }
